@@ -183,15 +183,21 @@ def validate(recs, name="MultiSetTrace"):
 
 
 def model_check(chk, tier):
-    runs = [("2x1", 1, 1, 3), ("1x2", 1, 1, 3), ("2x2", 1, 0, 2)] if tier == "quick" else \
+    runs = [("2x1", 1, 1, 3), ("1x2", 1, 1, 3)] if tier == "quick" else \
         [("2x1", 2, 1, 3), ("1x2", 2, 1, 3), ("2x2", 1, 1, 3), ("3x2", 1, 0, 2), ("2x3", 1, 0, 2)]
-    for shape, v, nk, ops in runs:
+    from concurrent.futures import ThreadPoolExecutor
+
+    def one(run):
+        shape, v, nk, ops = run
         n, m, rsn, rs, isn, is_ = SHAPES[shape]
         cfg = ("SPECIFICATION MSpec\nCONSTANTS N = %d M = %d V = %d NK = %d MaxOps = %d RS <- %s IS <- %s\n"
                "INVARIANT MProgressShrinks\nINVARIANT MQuiescentDefinitive\nINVARIANT MSumOfParts\nINVARIANT MatchIsAssignment\n"
                "INVARIANT CacheSound\nPROPERTY MNeverWidens\nPROPERTY MStepNeverWidens\nPROPERTY MReturns\nCHECK_DEADLOCK FALSE\n"
                % (n, m, v, nk, ops, rsn, isn))
-        res = tlc.run_tlc("MultiSetMC", cfg, workers=16, timeout=1500, name="MultiSet-mc")
+        return tlc.run_tlc("MultiSetMC", cfg, workers=6, timeout=1500, name="MultiSet-mc-%s" % shape)
+    with ThreadPoolExecutor(max_workers=3) as ex:
+        results = list(ex.map(one, runs))
+    for (shape, v, nk, ops), res in zip(runs, results):
         if not res.completed:
             chk.drift.append("MultiSet.tla (%s, V=%d, NK=%d) violates one of its properties on the model (lead only): %s"
                              % (shape, v, nk, res.invariant_violated or res.property_violated))
